@@ -163,7 +163,7 @@ def _worker(spec):
         if gi in skip: continue
         for idx, d in enumerate(inputs[gi]):
             for m in modes: jobs.append((gi, idx, m, d))
-    rc, recs, _, meta, err = eg.run_jobs(exe, jobs, timeout=600)
+    rc, recs, _, meta, err = eg.run_jobs(exe, jobs, timeout=200)
     byk = {(r.gi, r.idx, r.mode): r for r in recs}
     if rc != 0 or not meta['end']:
         first = next((j for j in jobs if j[0] != 'D' and (j[0], j[1], j[2]) not in byk), None)
